@@ -1105,6 +1105,13 @@ func RunSliceExpr(ctx *Task, expr *ast.SliceExpr) *errchain.PlError {
 		return NewRunError(ctx, "step type must be integer", expr.Step.StartPos())
 
 	}
+	// a step beyond the length selects at most one element; clamping it keeps
+	// `i += stepInt` from overflowing
+	if stepInt > length {
+		stepInt = length + 1
+	} else if stepInt < -length {
+		stepInt = -length - 1
+	}
 
 	switch start.T {
 	case ast.Invalid:
@@ -1172,6 +1179,9 @@ func RunSliceExpr(ctx *Task, expr *ast.SliceExpr) *errchain.PlError {
 			if endInt > length {
 				endInt = length
 			}
+			if endInt < startInt {
+				endInt = startInt
+			}
 			result := make([]any, 0, (endInt-startInt+stepInt-1)/stepInt)
 			for i := startInt; i < endInt; i += stepInt {
 				result = append(result, list[i])
@@ -1184,6 +1194,9 @@ func RunSliceExpr(ctx *Task, expr *ast.SliceExpr) *errchain.PlError {
 			}
 			if endInt < 0 {
 				endInt = -1
+			}
+			if startInt < endInt {
+				startInt = endInt
 			}
 			result := make([]any, 0, (startInt-endInt-stepInt-1)/(-stepInt))
 			for i := startInt; i > endInt; i += stepInt {
